@@ -504,6 +504,14 @@ def extract(unit, repo, verus_dir):
             start, b, end = slice_impl(src, masked, name, it.get("trait"))
             orig = src[start:end]
             head = rule_R0(src[start:b + 1], log)
+            if it.get("as_inherent"):
+                # R8': `impl<'a> Trait<'a> for T<'a> {` -> `impl<'a> T<'a> {` (methods verbatim, made pub): Verus cannot attach
+                # `ensures` to the methods of a trait impl whose trait declares none
+                head2 = re.sub(r"impl(<[^>]*>)?\s+[\w:]+(<[^>]*>)?\s+for\s+", lambda m: "impl%s " % (m.group(1) or ""), head, count=1)
+                if head2 == head:
+                    raise AnchorLost("trait impl header shape " + what)
+                head = head2
+                log.append("R8' trait impl turned into an inherent impl (method bodies verbatim)")
             inner_src = src[b + 1:end - 1]
             inner_masked = masked[b + 1:end - 1]
             pieces = []
